@@ -325,7 +325,9 @@ def run(prog: Program) -> Results:
     for key in ("_resolve_target_set_from_expr", "NixSourceCode._resolve_target_set.<resolve_from_expr>"):
         f = prog.func(key)
         res.analysed_functions.add(key)
-        ms = [n for n in walk_no_nested(f.node) if isinstance(n, ast.Match)]
+        from sa.util import match_form
+        fnode = match_form(f.node)  # a chain of `if isinstance(target, C): … return` reads as the match it stands for
+        ms = [n for n in walk_no_nested(fnode) if isinstance(n, ast.Match)]
         if len(ms) != 1:
             raise AnalysisError(f"{key}: expected exactly one match statement")
         m = ms[0]
@@ -346,7 +348,7 @@ def run(prog: Program) -> Results:
                 if not (c.body and isinstance(c.body[-1], ast.Raise) and exc_name(c.body[-1].exc) == "ValueError"):
                     wildcard_ok = False
         # after the match: fallthrough must raise ValueError
-        fcfg = CFG(f.node)
+        fcfg = CFG(fnode)
         mnode = next(n for n in fcfg.nodes if n.kind == "test" and getattr(n, "stmt", None) is m)
         fall = [(lab, s) for lab, s in mnode.succ if lab == ("case", None)]
         fall_ok = all(s.kind == "raise" and exc_name(s.ast.exc) == "ValueError" for _, s in fall)
